@@ -297,14 +297,41 @@ func spec_isRef(t TypeName) bool     { _, ok := t.(*ref); return ok }
 //@   pure
 //@   note interface method: assumed a deterministic observer without side effects
 
+//@ func ref.Pkg
+//@   props C15 C03
+//@   pure
+//@   requires r != nil
+//@   ensures result != nil && result.Path() == r.pkgPath
+
 //@ func Ref
 //@   props C15
+//@   assigns nothing
 //@   ensures spec_isRef(result) && fresh(result) && spec_refPath(result) == pkgPath && spec_refName(result) == name
 
 //@ func ParseRef
 //@   props C15
 //@   ensures Spec_dot(ref) > 0 ==> result1 == nil && spec_isRef(result0) && spec_refPath(result0) == ref[:Spec_dot(ref)] && spec_refName(result0) == ref[Spec_dot(ref)+1:]
 //@   ensures Spec_dot(ref) <= 0 ==> result0 == nil && result1 != nil
+
+// Spec_bare(name): the text after the last '.' of a bracket-free reference, or the whole text.
+func Spec_bare(name string) string {
+	if strings.LastIndex(name, ".") > 0 {
+		return name[strings.LastIndex(name, ".")+1:]
+	}
+	return name
+}
+
+//@ func TypeRef.Walk
+//@   trusted
+//@   iterator
+//@   note ASSUMED (by reading): Walk performs no store of its own, it only hands r and then, recursively, the nodes of r.TypeList to the callback
+
+//@ func TypeRef.String
+//@   props C15
+//@   pure
+//@   requires r != nil
+//@   assume forall i int :: 0 <= i && i < len(r.TypeList) ==> r.TypeList[i] != nil
+//@   note (assume) TypeRef trees contain no nil node
 
 // spec_delta: what one byte contributes to the bracket depth.
 func spec_delta(b byte) int {
@@ -328,7 +355,10 @@ func spec_depth(s string, i int) int {
 //@ func ParseTypeRef
 //@   props C15
 //@   decreases len(s)
+//@   assigns nothing
 //@   ensures (result1 == nil) == (result0 != nil)
+//@   ensures result0 != nil ==> fresh(result0)
+//@   ensures strings.Index(s, "[") <= 0 ==> result0 != nil && len(result0.TypeList) == 0 && result0.Name == Spec_bare(s)
 //@   lit 1 requires started <= i && i <= len(typeListStr)
 //@   lit 1 requires i < len(typeListStr) ==> typeListStr[i] == ',' && spec_depth(typeListStr, i) == 0
 //@   loop 1 invariant t != nil && 0 <= started && started <= off1
